@@ -85,3 +85,36 @@ Definition times_fit (ss : list C11Model.fsample) : Prop :=
 (* the bytes of samples a..b in sample order: what a reader of a lazily written segment finds after the mdat header *)
 Definition S_data (f : pfile) (tb : tables) (a b : N) : list N :=
   flat_map (fun n => match S_bytes f tb n with Some d => d | None => [] end) (seqN a (N.to_nat (b + 1 - a))).
+
+(* ------------------------------------------------------------------ the hypotheses of the decoded-level sync theorems
+   (C11_segmenter_segments_start_sync / C11_segmenter_lazy_segments_start_sync) as ONE boolean on the input, so that the
+   correspondence can evaluate them on the files the built tool was run on: file, tracks as DecodeFile sees them, the
+   index k of the reference track, target duration d; lz = the -lazy writer (needs one chunk-offset box). *)
+Definition seg_small_b (tb : tables) (iv : N * N) : bool :=
+  16 * (snd iv + 1 - fst iv) + S_total_size tb (fst iv) (snd iv) + 200 <? 2147483648.
+
+(* track k is the first video track (what getSegmentStartsFromVideo picks) *)
+Fixpoint first_video_at (trs : list itrack) (k : nat) : bool :=
+  match trs, k with
+  | t :: _, O => fst (fst t)
+  | t :: r, S k' => negb (fst (fst t)) && first_video_at r k'
+  | [], _ => false
+  end.
+
+Definition ref_sync_hyps (lz : bool) (f : pfile) (trs : list itrack) (k : nat) (d : N) : bool :=
+  forallb (fun t => C09Spec.consistent (snd t)) trs && first_video_at trs k &&
+  match nth_error trs k with
+  | None => false
+  | Some t =>
+    data_ok f (snd t) && (negb lz || one_offset_box (snd t)) &&
+    match C09Model.t_stss (snd t) with Some stss => existsb (N.eqb 1) stss | None => false end &&
+    match get_segment_starts (map itrack_of trs) d with
+    | Ok (syncTs, sps) =>
+      match sps with [] => false | _ => true end &&
+      match get_segment_intervals syncTs sps (itrack_of t) with
+      | Ok ivs => nonzero_dur_syncs (itrack_of t) sps && forallb (seg_small_b (snd t)) ivs
+      | _ => false
+      end
+    | _ => false
+    end
+  end.
